@@ -1,6 +1,7 @@
 package main
 
 import (
+	"verifharness/sessrep"
 	"encoding/json"
 	"fmt"
 	"strings"
@@ -297,6 +298,18 @@ func init() {
 					Msg: fmt.Sprintf("recipients %v, statuses set %v, final value %d (%s): the server wrote %v, Lmtp.tla requires one status per recipient in order, the k-th set for an address to its k-th occurrence, else the final value", c.Rcpts, c.Sets, c.Fin, c.Mode, c.Emitted), Replay: c})
 			}
 		}
+		// the LMTP half of the session model: every transition of the bounded graph
+		// on the real server (one final reply per accepted recipient, named, in order,
+		// from every history the model distinguishes)
+		smc := modelCheck("MC_Session", "MC_Session.cfg", 16)
+		var lgs []*sessrep.Graph
+		for _, g := range dumpEdges("MC_Session", "Dump_Session.cfg") {
+			if g.Cfg.Lmtp {
+				lgs = append(lgs, g)
+			}
+		}
+		lst := tourAll(run, lgs, 0)
+		fmt.Printf("C13: session model %d states; %d/%d transitions of the %d LMTP configurations replayed on the real server\n", smc.Distinct, lst.Covered, lst.Edges, len(lgs))
 		fmt.Printf("C13: Lmtp.tla %d states (no deadlock, termination); %d backend programs run on the real LMTP server, %d judged by TLC, %d rejected\n", mc.Distinct, len(cases), len(good), nbad)
 		samples := []interface{}{}
 		if len(good) > 2 {
@@ -304,7 +317,8 @@ func init() {
 		}
 		run.Finish("model_checking", evid.Coverage{
 			"states": mc.Distinct, "transitions": mc.Generated,
-			"traces_validated_against_impl": len(good), "programs_run": len(cases), "exhaustive": true,
+			"traces_validated_against_impl": len(good) + lst.Convs, "programs_run": len(cases), "exhaustive": true,
+			"lmtp_session_edges_replayed": lst.Covered, "lmtp_session_edges": lst.Edges,
 			"samples": samples, "checker_cmd": mc.Cmd,
 		}, []string{"backend programs stay within the documented contract (at most one SetStatus per occurrence of an address, none after LMTPData returned); over-calling is schedule dependent and not judged",
 			"modes: DATA, BDAT LAST in one or two chunks, backend failing inside the LAST chunk, plain (non-LMTPSession) backend via DATA and BDAT"})
